@@ -55,6 +55,7 @@ impl<'a, W: AsyncWrite + Unpin> QueryCommandHandler<'a, W> {
             limit,
             offset,
             where_clause,
+            event_sequence,
             ..
         } = self.command
         else {
@@ -89,6 +90,29 @@ impl<'a, W: AsyncWrite + Unpin> QueryCommandHandler<'a, W> {
                             &format!("Read permission denied for event type '{}'", event_type),
                         )
                         .await;
+                }
+                // A sequence query (FOLLOWED BY / PRECEDED BY) also returns events of the
+                // linked types: they need the read permission as well.
+                if let Some(sequence) = event_sequence {
+                    for (_, target) in &sequence.links {
+                        if uid != BYPASS_USER_ID && !auth_mgr.can_read(uid, &target.event).await {
+                            warn!(
+                                target: "sneldb::query",
+                                user_id = uid,
+                                event_type = target.event.as_str(),
+                                "Read permission denied"
+                            );
+                            return self
+                                .write_error(
+                                    StatusCode::Forbidden,
+                                    &format!(
+                                        "Read permission denied for event type '{}'",
+                                        target.event
+                                    ),
+                                )
+                                .await;
+                        }
+                    }
                 }
             } else {
                 // Authentication required but no user_id provided
